@@ -68,6 +68,13 @@ impl Rng {
         &xs[self.usize(xs.len())]
     }
 
+    pub fn shuffle<T>(&mut self, xs: &mut [T]) {
+        for i in (1..xs.len()).rev() {
+            let j = self.usize(i + 1);
+            xs.swap(i, j);
+        }
+    }
+
     /// Index chosen with probability proportional to weights. Sum must be > 0.
     pub fn weighted(&mut self, w: &[u32]) -> usize {
         let total: u64 = w.iter().map(|x| *x as u64).sum();
